@@ -62,6 +62,11 @@ impl<T: Fconv + HasOptionMarker> Fconv for Option<T> {
     fn fv(v: &Val, _: u8) -> Self { match v { Val::None => None, Val::Some(x) => Some(T::fv(x, 0)), _ => panic!("option expected") } }
     fn tv(&self, _: u8) -> Val { match self { None => Val::None, Some(x) => Val::Some(Box::new(x.tv(0))) } }
 }
+/// generated setters, by field index (None = this field has no generated setter)
+pub trait SetField: StructDiff + Sized {
+    fn set_field(&mut self, _i: usize, _v: &Val) -> Option<Option<<Self as StructDiff>::Diff>> { None }
+}
+impl SetField for En {}
 /// marker for generated struct types (so that Option<struct> does not overlap Option<i64>)
 pub trait HasOptionMarker {}
 
@@ -78,7 +83,7 @@ fn line(out: &mut String, id: &str, tag: &str, v: Option<String>) { writeln!(out
 
 /// all observations for one case line (PAIR or HIST) of shape type T
 pub fn run<T>(toks: &[&str]) -> String
-where T: StructDiff + Fconv + Clone + PartialEq + Debug, T::Diff: Debug + Clone {
+where T: StructDiff + Fconv + Clone + PartialEq + Debug + SetField, T::Diff: Debug + Clone {
     let mut out = String::new();
     let kind = toks[0];
     let id = toks[1];
@@ -122,6 +127,34 @@ where T: StructDiff + Fconv + Clone + PartialEq + Debug, T::Diff: Debug + Clone 
             match r { Some(nf) => { f = nf; line(&mut out, id, &format!("H{}", k), Some(vs(&f.tv(0)))); }
                       None => { line(&mut out, id, &format!("H{}", k), None); break; } }
         }
+    } else if kind == "SET" {
+        // SET id sid X <value> OPS <i> <field value> ...: generated setters; the returned entries replayed on a copy
+        assert_eq!(toks[i], "X"); i += 1; let x0 = T::fv(&parse_val(toks, &mut i), 0);
+        assert_eq!(toks[i], "OPS"); i += 1;
+        let mut x = x0.clone();
+        let mut entries: Vec<T::Diff> = vec![];
+        let mut k = 0;
+        while i < toks.len() {
+            let fi: usize = toks[i].parse().unwrap(); i += 1;
+            let v = parse_val(toks, &mut i);
+            let before = match x.tv(0) { Val::Struct(fs) => fs, _ => vec![] };
+            let r = guard(|| x.set_field(fi, &v));
+            match r {
+                None => { line(&mut out, id, &format!("E{}", k), None); break; }
+                Some(None) => { writeln!(out, "{} E{} NOSETTER", id, k).unwrap(); }
+                Some(Some(e)) => {
+                    line(&mut out, id, &format!("E{}", k), Some(match &e { None => "-".to_string(), Some(d) => format!("{:?}", d) }));
+                    if let Some(d) = e { entries.push(d); }
+                    let after = match x.tv(0) { Val::Struct(fs) => fs, _ => vec![] };
+                    for j in 0..after.len() {
+                        if j != fi && after[j] != before[j] { writeln!(out, "ORACLE-FAIL {} setter call {} for field f{} changed field f{}", id, k, fi, j).unwrap(); }
+                    }
+                }
+            }
+            line(&mut out, id, &format!("V{}", k), Some(vs(&x.tv(0))));
+            k += 1;
+        }
+        line(&mut out, id, "REPLAY", guard(|| vs(&x0.clone().apply(entries).tv(0))));
     } else { panic!("bad case kind"); }
     out
 }
